@@ -426,9 +426,15 @@ def main(argv=None):
     # (3) classify
     classify = getattr(mod, "classify", lambda m: None)
     oracle = getattr(mod, "violates", lambda m: True)
-    unexplained, benign = [], []
+    unexplained, benign, ignored = [], [], []
+    # ignore(m): the difference lies in an observable the property does not fix AND the theorems do not depend on (e.g. the
+    # number of entries a cache retains, when the soundness theorem holds for arbitrary evictions): counted, never an alarm
+    ignore = getattr(mod, "ignore", lambda m: None)
     for m in mism:
         k = classify(m)
+        if ignore(m):
+            ignored.append(m)
+            continue
         if k is not None and k in findings:
             known_hit.setdefault(k, []).append(m)
         elif oracle(m):
@@ -481,7 +487,9 @@ def main(argv=None):
             rule=spec.get("rule", "cases generated by the Go harness from one splitmix64 seed; non-trivial = the implementation produced a defined (non-error) result; distinct by input"),
             samples=samples or ["(no case ran)"],
             traces_validated_against_impl=evaluations,
-            disagreements=len(mism), disagreements_known=sum(len(v) for v in known_hit.values()),
+            disagreements=len(mism) - len(ignored), disagreements_known=sum(len(v) for v in known_hit.values()),
+            differences_outside_the_property=dict(cases=len(ignored), why=(ignore(ignored[0]) if ignored else None),
+                                                  example=(ignored[0]["input"][:200] if ignored else None)),
             known_findings_hit=sorted(known_hit.keys()),
             input_distribution=stats,
             replay=bool(a.replay),
@@ -499,7 +507,7 @@ def main(argv=None):
     for l in out_lines:
         print(l)
     print("%s: theorems %d/%d, cases %d (distinct non-trivial %d), disagreements %d (known %d), %.1fs" % (
-        pid, pr["discharged"], pr["obligations"], evaluations, len(distinct), len(mism),
+        pid, pr["discharged"], pr["obligations"], evaluations, len(distinct), len(mism) - len(ignored),
         sum(len(v) for v in known_hit.values()), wall))
     for g, path, suffix in violations:
         print("VIOLATION property=%s replay=%s%s" % (pid, path, suffix))
